@@ -327,7 +327,10 @@ def settle_temporaries(relpath: str, tree: ast.Module) -> Tuple[int, int]:
                         continue
                     roots = [val] if isinstance(val, ast.AST) else [x for x in val if isinstance(x, ast.AST)] if isinstance(val, list) else []
                     for root in roots:
+                        specs = {id(n.format_spec) for n in ast.walk(root) if isinstance(n, ast.FormattedValue) and n.format_spec is not None}
                         for node in ast.walk(root):
+                            if id(node) in specs:
+                                continue  # a format spec is not an expression position
                             if isinstance(node, ast.expr) and not isinstance(node, (ast.Name, ast.Constant)) and not isinstance(getattr(node, "ctx", None), ast.Store) and _abs(node, names) == want:
                                 hits.append((body, i, st, node))
             if len(hits) != 1:
